@@ -508,6 +508,7 @@ func rulesC14(c *Ctx) {
 	c.Floor("C14.SEEKTAG", 6)
 
 	ruleC14Reposition(c, cts, isCT)
+	ruleFreshSetCursor(c, "C14.FRESHCURSOR", "boltz", "objectz")
 	ruleC14Union(c)
 	ruleC14Empty(c)
 	ruleC14Direction(c, cts)
